@@ -715,7 +715,7 @@ fn wire_ttl(ctx: &mut Ctx) {
         let ttls2 = ttls.clone();
         let dst2 = *dst;
         let sizes: Vec<u16> = ttls.iter().map(|_| *ctx.rng.pick(&[0u16, 8, 24, 56])).collect();
-        let res: Result<Vec<(String, String)>, String> = rt.block_on(async move {
+        let res: Result<(Vec<(String, String)>, Vec<String>), String> = rt.block_on(async move {
             let mut v = match vicmp::spawn(&core, 1) {
                 Some(Ok(v)) => v,
                 Some(Err(e)) => return Err(format!("unavailable: {}", e)),
@@ -726,6 +726,7 @@ fn wire_ttl(ctx: &mut Ctx) {
                 return Err(format!("unavailable: listen() ended: {}", e));
             }
             let mut rows = vec![];
+            let mut missing: Vec<String> = vec![];
             for (k, ttl) in ttls2.iter().enumerate() {
                 let id = id_base.wrapping_add(ti as u16);
                 let seq = k as u16;
@@ -759,15 +760,37 @@ fn wire_ttl(ctx: &mut Ctx) {
                     None => "not-seen".to_string(),
                 };
                 rows.push((format!("c11 wire {}", hex(&rec)), ans));
-                let _ = v.clients[0].take();
+                // the kernel answers the echo (loopback / own address): the reply must reach the client, as a reply of this
+                // family (type 0 / 129) from the pinged address with the request's identifier and sequence number
+                let want_reply = if v6 { 129 } else { 0 };
+                let mut replied = false;
+                for _ in 0..200 {
+                    for d in v.clients[0].take() {
+                        if let Some(e) = &d.encoded {
+                            if d.type_id == want_reply && d.peer == dst2 && e.len() >= 22 && e[0..2] == id.to_be_bytes() && e[20..22] == seq.to_be_bytes() {
+                                replied = true;
+                            }
+                        }
+                    }
+                    if replied {
+                        break;
+                    }
+                    tokio::time::sleep(Duration::from_millis(5)).await;
+                }
+                if !replied {
+                    missing.push(format!("{} id={} seq={} ttl={}", dst2, id, seq, ttl));
+                }
             }
-            Ok(rows)
+            Ok((rows, missing))
         });
         unsafe {
             libc::close(fd);
         }
         match res {
-            Ok(rows) => {
+            Ok((rows, missing)) => {
+                if !missing.is_empty() {
+                    ctx.oracle_failure("reply_not_delivered", &format!("echo requests answered by the kernel whose reply never reached the client: {}", missing.join("; ")));
+                }
                 for (q, a) in rows {
                     ctx.emit(&q, &a);
                     ctx.stat(if v6 { "wire_ttl_ipv6" } else { "wire_ttl_ipv4" });
